@@ -107,7 +107,7 @@ struct GenConfig
 {
     bool thorough = false;
 };
-std::vector<PTok> gen_sentence(const ref::Model& m, Rng& rng, int budget, bool ws_rich, bool skip_ws, bool skip_nl);
+std::vector<PTok> gen_sentence(const ref::Model& m, Rng& rng, int budget, bool ws_rich, bool skip_ws, bool skip_nl, bool dense = false);
 std::string sample_regex(const ref::Re& re, Rng& rng, int loop_max);
 Plan gen_plan(const std::string& property, uint64_t seed, int64_t index, const GenConfig& cfg);
 
